@@ -1164,9 +1164,26 @@ class SymTwelfth:
 
 
 # ---- misc ---------------------------------------------------------------------------------------------
-@model("copy.deepcopy", "copy.copy")
+@model("copy.deepcopy")
 def _deepcopy(I, v):
     return I.clone(v, {})
+
+
+@model("copy.copy")
+def _shallow_copy(I, v):
+    """copy.copy: a new container / object whose items ARE the original's items (an ndarray is copied with its data)."""
+    from .symex import Obj
+    if isinstance(v, NDArr):
+        return NDArr(v.data.copy(), v.kind)
+    if isinstance(v, Obj):
+        r = Obj(v.cls)
+        r.fields = dict(v.fields)
+        return r
+    if isinstance(v, list):
+        return list(v)
+    if isinstance(v, dict):
+        return dict(v)
+    return v
 
 
 @model("logging.getLogger")
